@@ -264,8 +264,13 @@ def constant_spectrum_double(ex, uni, bins):
         seen.append(x)
         return orig(self, x)
     mod.ConstantSpectrum.evaluate = evaluate
+    ex.branch_ms = 10000
     try:
         sp = mod.ConstantSpectrum(mn, mx, bins)
+    except ValueError as e:
+        # only reachable on a branch side the solver could not rule out within its budget: must be infeasible
+        ex.prove(False, 'valid-range-accepted', info=str(e)[:80], soft=True)
+        return
     finally:
         mod.ConstantSpectrum.evaluate = orig
     ex.cover('binned')
